@@ -414,12 +414,18 @@ class DisjunctionMaxMatcher(UnionMatcher):
         aq = a.block_quality()
         bq = b.block_quality()
         while a.is_active() and b.is_active() and max(aq, bq) <= minquality:
+            sk = 0
             if aq <= minquality:
-                skipped += a.skip_to_quality(minquality)
-                aq = a.block_quality()
-            if bq <= minquality:
-                skipped += b.skip_to_quality(minquality)
-                bq = b.block_quality()
+                sk += a.skip_to_quality(minquality)
+                aq = a.block_quality() if a.is_active() else 0
+            if bq <= minquality and b.is_active():
+                sk += b.skip_to_quality(minquality)
+                bq = b.block_quality() if b.is_active() else 0
+            if not sk:
+                # Neither sub-matcher could skip anything (a composite may
+                # have no block it can prove worthless): don't spin
+                break
+            skipped += sk
         return skipped
 
 
